@@ -6,8 +6,9 @@ m = json.loads((V / 'MANIFEST.json').read_text())
 rows = []
 for c in m['checks']:
     pid = c['property_id']
-    f = V / 'coq/theories/Props' / f'{pid}.v'
-    thms = re.findall(r'^(?:Theorem|Example)\s+([A-Za-z0-9_]+)', f.read_text(), re.M) if f.exists() else []
+    thms = []
+    for f in sorted((V / 'coq/theories/Props').glob(f'{pid}*.v')):
+        thms += re.findall(r'^(?:Theorem|Example)\s+([A-Za-z0-9_]+)', f.read_text(), re.M)
     rows.append((pid, c.get('technique', ''), len(thms), ', '.join(t.replace(pid + '_', '') for t in thms)))
 out = ['### 5.0 As built: theorems per property *(generated from Props/*.v; kept current)*', '',
        'All theorems are closed under the global context (no axioms; `Print Assumptions` is checked on every run).',
